@@ -4,11 +4,12 @@
 # (VERIF_REPO), removes the worktree afterwards; evidence and replay files of these runs go to a scratch directory
 # (VERIF_SCRATCH), /verif/evidence is not touched.
 P=$(realpath "$1"); TIER=$2; shift 2
-cd /verif
+V=$(cd "$(dirname "$0")/.." && pwd)   # works from a snapshot copy of /verif as well (tools/regress.sh)
+cd $V
 tools/trimcache.sh
 WT=/tmp/eval_$$
 git -C /repo worktree add -q --detach $WT HEAD || exit 2
-trap 'git -C /repo worktree remove --force $WT; rm -rf /verif/build/alt_$(echo -n $WT | sha1sum | cut -c1-8); rm -rf /tmp/evs_$$' EXIT
+trap 'git -C /repo worktree remove --force $WT; rm -rf $V/build/alt_$(echo -n $WT | sha1sum | cut -c1-8); rm -rf /tmp/evs_$$' EXIT
 git -C $WT apply "$P" || { echo "patch does not apply"; exit 2; }
 for c in "$@"; do
   out=$(VERIF_REPO=$WT VERIF_SCRATCH=/tmp/evs_$$ ./check $c $TIER 2>&1); rc=$?
